@@ -723,11 +723,14 @@ func (gen *Generator) GenerateCallBySymbol(sym *SexpSymbol, args []Sexp, orig Se
 		}
 		// to do a tail call
 		// pop off all the extra scopes
-		// then jump to beginning of function
+		// then jump to beginning of function. PrepareCallInstr
+		// comes first: it looks the callee up in the scopes of
+		// the call, and passes over the jump if the name is not
+		// bound to the running function.
+		gen.AddInstruction(PrepareCallInstr{sym, len(args), gen.scopes + 2})
 		for i := 0; i < gen.scopes; i++ {
 			gen.AddInstruction(RemoveScopeInstr{})
 		}
-		gen.AddInstruction(PrepareCallInstr{sym, len(args)})
 		// leave the function scope of the finished activation and
 		// enter a fresh one (instruction 0 is AddFuncScopeInstr):
 		// closures created in earlier iterations must keep seeing
